@@ -30,33 +30,33 @@ CHECKS = {
             "probabilities tie; scalings over 2^-30..2^30 of coordinates and all distance parameters. Exploration.",
             "trusted: the transformations themselves (exact in floating point for 2^k; translation offsets exactly representable)",
             "DESIGN.md §2 C16"),
-    "C19": ("property-based testing (Hypothesis), differential oracle (logger at ERROR vs DEBUG, NullHandler / StreamHandler)",
+    "C19": ("[thorough: + atheris coverage-guided bridge] property-based testing (Hypothesis), differential oracle (logger at ERROR vs DEBUG, NullHandler / StreamHandler)",
             "Single calls and histories are run at both log levels: returned states (incl. their type), index, path keys and every "
             "probability on the path must be identical. Exploration.",
             "trusted: logging level and handlers are restored after every case",
             "DESIGN.md §2 C19"),
-    "C17": ("property-based testing (Hypothesis), oracle = totality predicate + metamorphic pairs-vs-triples relation",
+    "C17": ("[thorough: + atheris coverage-guided bridge] property-based testing (Hypothesis), oracle = totality predicate + metamorphic pairs-vs-triples relation",
             "Generated maps incl. duplicate locations / zero-length edges, traces exactly on nodes and roads, repeats, "
             "outliers, extreme noise values, both metrics: match() must return a (list, int) pair without raising and the "
             "(lat, lon, time) form of the trace must give the identical canonical result. Exploration.",
             "trusted: the generators only build finite maps whose neighbour labels are nodes (dangling labels are outside "
             "the API's notion of a map)",
             "DESIGN.md §2 C17"),
-    "C02": ("property-based testing (Hypothesis), oracle = independent replay of the documented model along the returned path; "
+    "C02": ("[thorough: + atheris coverage-guided bridge] property-based testing (Hypothesis), oracle = independent replay of the documented model along the returned path; "
             "operation histories as data",
             "Every entry of the returned best path (log-probability, observation distance, length, travelled distances, matched "
             "position) is recomputed by an independently written model from the map, the trace and the configuration, after single "
             "calls and after generated match/extend/widen/rematch histories, for all families incl. non-emitting runs. Exploration.",
             "trusted: hmmref.py + geom2d.py; for non-emitting edge states any valid witness pair is accepted; 1e-8 relative",
             "DESIGN.md §2 C02"),
-    "C03": ("property-based testing (Hypothesis), oracle = validity predicate over (states, index, best path, lattice) + "
+    "C03": ("[thorough: + atheris coverage-guided bridge] property-based testing (Hypothesis), oracle = validity predicate over (states, index, best path, lattice) + "
             "independent start-candidate scan",
             "Alignment of the best path with the observations, the state list (unique on/off), the truthfulness of the returned "
             "index against the lattice, and 'empty iff no admissible start' against an independent full scan. Exploration.",
             "trusted: hmmref.py start scan; trailing non-emitting run after an early stop accepted (documented); F1 excluded from "
             "the empty-iff clause only",
             "DESIGN.md §2 C03"),
-    "C04": ("property-based testing (Hypothesis), oracle = validity predicate against the generating adjacency model; histories",
+    "C04": ("[thorough: + atheris coverage-guided bridge] property-based testing (Hypothesis), oracle = validity predicate against the generating adjacency model; histories",
             "Every state of the best path must be a node / directed edge of the generating model and every consecutive pair a move "
             "the map offers (incl. linked parallel edges); the nodes-only view must be computable and pairwise adjacent; checked "
             "after every operation of generated histories. Exploration.",
@@ -74,19 +74,19 @@ CHECKS = {
             "probability of complete matches must not drop. Exploration.",
             "trusted: nothing beyond the package's public results; 1e-9 slack",
             "DESIGN.md §2 C06"),
-    "C07": ("property-based testing (Hypothesis), per-column snapshot invariant through the public tqdm= callable + differential "
+    "C07": ("[thorough: + atheris coverage-guided bridge] property-based testing (Hypothesis), per-column snapshot invariant through the public tqdm= callable + differential "
             "against the unpruned run + monotonicity over widening histories",
             "At the moment a column is about to be expanded the expanded candidates must be a top-k prefix (k within [min(W,n), "
             "W + ties]); a pruned / widened run is compared with a fresh unpruned run (prefix, probability, equality at full "
             "width) and widening must be monotone. Exploration.",
             "trusted: snapshot taken by our own iterator wrapper passed as tqdm=; open finding KF-C07-NE recognised by signature",
             "DESIGN.md §2 C07"),
-    "C08": ("property-based testing (Hypothesis), differential oracle (incremental vs one-shot)",
+    "C08": ("[thorough: + atheris coverage-guided bridge] property-based testing (Hypothesis), differential oracle (incremental vs one-shot)",
             "A trace cut at 1-4 generated points is matched incrementally with expand=True on one matcher and in one call on a "
             "fresh matcher: index, best path (ties excepted) and probability must agree. Exploration.",
             "trusted: nothing beyond public results; tie = probabilities equal to 1e-12",
             "DESIGN.md §2 C08"),
-    "C09": ("model-based property testing of operation histories (Hypothesis, sequences as data), structural invariant over the "
+    "C09": ("[thorough: + atheris coverage-guided bridge] model-based property testing of operation histories (Hypothesis, sequences as data), structural invariant over the "
             "whole lattice after every step",
             "Generated sequences of match / extend / widen / rematch / continue_with_distance with arbitrary arguments; after "
             "each applied operation every lattice entry is checked: filed where it claims, predecessor present in the directly "
